@@ -179,8 +179,29 @@ def gen_project(rng, idx, shape=None):
         docs[f] = {"style": rng.choice(["line", "line", "block"]), "lines": texts.pop()}
     if docs and rng.random() < 0.35:
         docs[rng.choice(sorted(docs))] = {"style": "empty", "lines": []}
+    # the name a file gives a tagged import in Go code: `_` (never referred to), the package's own name, or a renamed
+    # import.  Different files may use the same local name for different packages (import names have file scope);
+    # the code that exists resolves `pkg.Func` in Default/Aliases by PACKAGE name against the collected imports and
+    # does not look at these names at all.
+    holder_imports = {n: go_choice[n] for n in sorted(used_names)}
+    nren = 0
+    for f in fnames:
+        taken = set(holder_imports) if f == holder else set()
+        for sp in specs[f]:
+            pk = pkgs[sp["path"]]
+            if f == holder and holder_imports.get(pk["name"]) == sp["path"]:
+                sp["local"] = ""                      # the import the Default/Aliases of this file go through
+                continue
+            r = rng.random()
+            sp["local"] = "_"
+            if r < 0.40 and pk["name"] not in taken:
+                sp["local"] = ""                      # plain: the package name
+                taken.add(pk["name"])
+            elif r < 0.55:
+                nren += 1
+                sp["local"] = "rn%d%s" % (nren, pk["name"][:2])
     return {"name": "p%04d" % idx, "shape": shape, "files": fnames, "specs": specs, "pkgs": pkgs, "local": local, "docs": docs,
-            "holder": holder, "holder_imports": {n: go_choice[n] for n in sorted(used_names)},
+            "holder": holder, "holder_imports": holder_imports,
             "aliases": alias_entries, "default": default, "features": features}
 
 
@@ -252,16 +273,22 @@ def render(pr, order=None):
         if pr["local"][f]["ns"]:
             imps.append('\t"github.com/magefile/mage/mg"')
         tagged = {s["path"] for s in pr["specs"][f]}
+        uses = []
         for s in pr["specs"][f]:
             imps.append("\t// mage:import" + (" " + s["alias"] if s["alias"] else ""))
-            real = f == pr["holder"] and pr["holder_imports"].get(pr["pkgs"].get(s["path"], {}).get("name")) == s["path"]
-            imps.append('\t%s"%s/%s"' % ("" if real else "_ ", mod, s["path"]))
+            pk = pr["pkgs"].get(s["path"])
+            real = f == pr["holder"] and pk is not None and pr["holder_imports"].get(pk["name"]) == s["path"]
+            loc = "" if real else (s.get("local", "_") if pk is not None else "_")
+            imps.append('\t%s"%s/%s"' % ((loc + " ") if loc else "", mod, s["path"]))
+            if loc != "_" and not real:
+                uses.append("var _ = %s.%s\n" % (loc or pk["name"], pk["funcs"][0][0]))      # a named import must be used
         if f == pr["holder"]:
             for n, p in pr["holder_imports"].items():
                 if p not in tagged:
                     imps.append('\t"%s/%s"' % (mod, p))
         if imps:
             lines += ["import ("] + imps + [")", ""]
+        lines += uses
         for ns, ms in pr["local"][f]["ns"]:
             lines.append("type %s mg.Namespace\n" % ns)
             for m, v in ms:
@@ -300,6 +327,16 @@ def competing(pr):
             else:
                 roots.append(s["path"])
     pname = lambda p: pr["pkgs"].get(p, {"name": "?"})["name"]
+    by_local = {}
+    for f in pr["files"]:
+        for s in pr["specs"][f]:
+            real = f == pr["holder"] and pr["holder_imports"].get(pname(s["path"])) == s["path"]
+            loc = "" if real else s.get("local", "_")
+            if loc != "_" and s["path"] in pr["pkgs"]:
+                by_local.setdefault(loc or pname(s["path"]), set()).add(s["path"])
+    for n, p in pr["holder_imports"].items():
+        by_local.setdefault(n, set()).add(p)
+    refs = {e[1] for _, e in pr["aliases"] if e[0] in ("sel", "sel2")} | ({pr["default"][1]} if pr["default"] and pr["default"][0] in ("sel", "sel2") else set())
     def pairs(paths):
         c = {}
         for p in paths:
@@ -309,6 +346,9 @@ def competing(pr):
             "same_path_and_alias_twice": same_pair,
             "paths_with_two_aliases": sum(1 for a in named.values() if len(a) > 1),
             "named_and_root": len(set(named) & set(roots)),
+            "local_names_for_different_packages_in_different_files": sum(1 for n, ps in by_local.items() if len(ps) > 1),
+            "of_which_used_by_default_or_aliases": sum(1 for n, ps in by_local.items() if len(ps) > 1 and n in refs),
+            "renamed_imports": sum(1 for f in pr["files"] for s in pr["specs"][f] if s.get("local", "_") not in ("_", "")),
             "files": len(pr["files"]), "aliases": len(pr["aliases"]),
             "files_with_package_comment": len(pr.get("docs", {})),
             "nonempty_package_comments": sum(1 for d in pr.get("docs", {}).values() if d["style"] != "empty")}
